@@ -138,6 +138,11 @@ def assign(E, tgt, v, st, out, node):
     if isinstance(tgt, ast.Attribute):
         res = []
         for s1, recv in E.ev(tgt.value, st, out):
+            if isinstance(recv, VPy):
+                # the object lives in the environment: update it in place there
+                recv.attrs[tgt.attr] = v
+                res.append(s1)
+                continue
             if not isinstance(recv, VRef):
                 raise OutOfSubset("attribute store on %r" % (recv,))
             q = E.find_method(recv.cls, "__setattr__")
@@ -153,7 +158,13 @@ def assign(E, tgt, v, st, out, node):
     if isinstance(tgt, ast.Subscript):
         res = []
         for s1, (recv, key) in E.evs([tgt.value, tgt.slice], st, out):
-            if isinstance(recv, VDict):
+            if isinstance(recv, VRec):
+                k = _concrete_key(key)
+                if k not in recv.mapping:
+                    raise OutOfSubset("record key %r is not modelled" % (k,))
+                E.store(s1, recv.ref, recv.mapping[k], v)
+                res.append(s1)
+            elif isinstance(recv, VDict):
                 k = _concrete_key(key)
                 recv.d[k] = v
                 res.append(s1)
@@ -224,9 +235,105 @@ def feasible(E, st, cond):
 def st_If(E, n, st):
     out, res = [], []
     for s1, c in E.ev(n.test, st, out):
-        for s2, taken in E.branch(s1, E.truthy(c, s1), n.lineno, "if"):
-            res += E.exec_block(n.body if taken else n.orelse, s2)
+        cond = E.truthy(c, s1)
+        brs = E.branch(s1, cond, n.lineno, "if")
+        outs = [(taken, E.exec_block(n.body if taken else n.orelse, s2)) for s2, taken in brs]
+        merged = None
+        if len(outs) == 2 and getattr(E.cur, "merge", True):
+            merged = merge_diamond(E, s1, cond, outs, n)
+        if merged is not None:
+            res.append(Outcome("normal", merged))
+        else:
+            for _, os_ in outs:
+                res += os_
     return out + res
+
+
+def _merge_val(cond, a, b):
+    """value that is `a` when cond else `b`; None when not mergeable"""
+    if a is b:
+        return a
+    if type(a) is not type(b):
+        return None
+    if isinstance(a, (VInt, VBool, VStr, VObj, VFile)):
+        return a if a.t.eq(b.t) else type(a)(z3.If(cond, a.t, b.t))
+    if isinstance(a, VRef):
+        if a.cls != b.cls:
+            return None
+        return a if a.t.eq(b.t) else VRef(z3.If(cond, a.t, b.t), a.cls)
+    if isinstance(a, VNone):
+        return a
+    if isinstance(a, VTuple) and len(a.items) == len(b.items):
+        items = [_merge_val(cond, x, y) for x, y in zip(a.items, b.items)]
+        return None if any(i is None for i in items) else VTuple(items)
+    if isinstance(a, VList) and a.ety == b.ety and len(a.cols) == len(b.cols):
+        n = a.n if a.n.eq(b.n) else z3.If(cond, a.n, b.n)
+        cols = [x if x.eq(y) else z3.If(cond, x, y) for x, y in zip(a.cols, b.cols)]
+        return VList(n, cols, a.ety)
+    if isinstance(a, VConst):
+        return a if a.obj is b.obj or a.obj == b.obj else None
+    if isinstance(a, VExt):
+        return a if a.name == b.name else None
+    if isinstance(a, VCList) and len(a.items) == len(b.items):
+        items = [_merge_val(cond, x, y) for x, y in zip(a.items, b.items)]
+        return None if any(i is None for i in items) else VCList(items)
+    if isinstance(a, VDict) and list(a.d) == list(b.d):
+        d = {k: _merge_val(cond, a.d[k], b.d[k]) for k in a.d}
+        return None if any(v is None for v in d.values()) else VDict(d)
+    if isinstance(a, VFunc):
+        return a if a.node is b.node else None
+    if isinstance(a, VBound):
+        return a if (a.recv is b.recv and a.name == b.name) else None
+    return None
+
+
+def merge_diamond(E, s1, cond, outs, n):
+    """join the two branches of an if-statement when both simply fall through"""
+    (t1, o1), (t2, o2) = outs
+    if len(o1) != 1 or len(o2) != 1 or o1[0].kind != "normal" or o2[0].kind != "normal":
+        return None
+    a, b = (o1[0].st, o2[0].st) if t1 else (o2[0].st, o1[0].st)     # a = then-state
+    if len(a.stack) != len(b.stack) or set(a.env) != set(b.env) or set(a.ghost) != set(b.ghost):
+        return None
+    L = len(s1.pc)
+    m = s1.fork()
+    env = {}
+    for k in a.env:
+        v = _merge_val(cond, a.env[k], b.env[k])
+        if v is None:
+            return None
+        env[k] = v
+    ghost = {}
+    for k in a.ghost:
+        x, y = a.ghost[k], b.ghost[k]
+        if x is y or (z3.is_expr(x) and z3.is_expr(y) and x.eq(y)):
+            ghost[k] = x
+        elif isinstance(x, V) and isinstance(y, V):
+            v = _merge_val(cond, x, y)
+            if v is None:
+                return None
+            ghost[k] = v
+        elif isinstance(x, (list, dict, str)) and x == y:
+            ghost[k] = x
+        else:
+            return None
+    for sa, sb in zip(a.stack, b.stack):
+        for k in sa:
+            if k not in sb or _merge_val(cond, sa[k], sb[k]) is None:
+                return None
+    m.env = env
+    m.ghost = ghost
+    m.stack = [{k: _merge_val(cond, sa[k], sb[k]) for k in sa} for sa, sb in zip(a.stack, b.stack)]
+    for f in set(a.heap) | set(b.heap):
+        x, y = a.heap.get(f), b.heap.get(f)
+        if x is None or y is None:
+            x = x if x is not None else E.heap(a, f)
+            y = y if y is not None else E.heap(b, f)
+        m.heap[f] = x if x.eq(y) else z3.If(cond, x, y)
+    m.pc = list(s1.pc) + [z3.Implies(cond, e) for e in a.pc[L + 1:]] + [z3.Implies(z3.Not(cond), e) for e in b.pc[L + 1:]]
+    m.written = set(a.written) | set(b.written)
+    m.trace = list(s1.trace) + ["%d:merged" % n.lineno]
+    return m
 
 
 def st_Return(E, n, st):
@@ -778,6 +885,8 @@ def select_contract(E, q, argmap):
 
 
 def _fits(E, v, ty):
+    if isinstance(ty, V):
+        return type(v) is type(ty) and getattr(v, "name", None) == getattr(ty, "name", None)
     if ty == OBJ:
         return isinstance(v, (VObj, VStr, VInt, VNone, VConst, VBool, VRef))
     if ty == INT:
@@ -912,7 +1021,6 @@ def havoc_frame(E, c, st, pre, h_pre):
             st.assume(z3.ForAll([r], z3.Implies(z3.Not(region(pre, r)), z3.Select(new, r) == z3.Select(old, r))))
         st.heap[f] = new
         st.written.add(f)
-        st.ghost.setdefault("$callee_frames", []).append((f, region, pre))
 
 
 def set_seq(E, st, r, n, items):
@@ -1093,7 +1201,7 @@ def known_fields(E):
 for _name, _f in list(globals().items()):
     if callable(_f) and getattr(_f, "__module__", None) == __name__ and _name not in (
             "collect_loops", "assigned_names", "mutated_receivers", "iter_spec", "havoc_frame", "frame_goals", "pre_at",
-            "_as_load", "_concrete_key", "to_vlist", "_exc_name", "_handler_names", "_iter_parts", "_fits", "adapt"):
+            "_as_load", "_concrete_key", "to_vlist", "_merge_val", "merge_diamond", "_exc_name", "_handler_names", "_iter_parts", "_fits", "adapt"):
         setattr(Engine, _name, _f)
 Engine.inlined = set()
 Engine.used_contracts = set()
